@@ -776,6 +776,9 @@ func ruleDispatchTotal(r *Run) {
 	}
 	r.Floor("A1", "module client message kinds", nm, 6)
 	// dispatch function: arguments handed through unchanged, error short-circuits, module loop gated
+	if m.TableDispatch {
+		r.Assume("the core dispatch is table-driven: which handler a message kind reaches is read from the table literal; that the table's adapters hand context, responder and message through unchanged is not examined")
+	}
 	fn := m.Dispatch
 	paths := r.Paths(fn)
 	r.Analysed(fn, len(paths))
